@@ -369,6 +369,9 @@ def run(ck: Check):
     opt_src, opt_ok, opt_note = tr_likelihood_options.translate(REPO)
     gen_files["TTGen/C01_Options.lean"] = opt_src
     ck.extra["translator_options_recognised_source"] = opt_ok
+    ck.extra["options_table_route"] = getattr(tr_likelihood_options.translate, "route", "ast")  # "ast" or "behaviour"
+    if ck.extra["options_table_route"] != "ast":
+        ck.notes.append("options table: " + opt_note[:300])
     if not opt_ok:
         ck.notes.append("translator tr_likelihood_options: " + opt_note)
     try:  # the LG / WAG corollaries (Props/C0x_LGWAG.lean) are about the generated empirical tables: regenerate them too
@@ -475,7 +478,9 @@ def run(ck: Check):
         for dtn, sub, symbols, plain, extra in symbol_sweep_plan(rng):
             size = 3 if dtn == "codon" else 1
             for sym in symbols:
-                cols = [[sym if j == i else plain[(i + j) % 2] for j in range(4)] for i in range(4)] + [[sym, sym, plain[0], plain[1]]]
+                # the symbol at each tip in turn, at two tips, and a CONSTANT column (every tip carries it), the latter twice
+                cols = ([[sym if j == i else plain[(i + j) % 2] for j in range(4)] for i in range(4)] + [[sym, sym, plain[0], plain[1]]]
+                        + [[sym] * 4, [sym] * 4])
                 seqs = {nm: "".join(c[i] for c in cols) for i, nm in enumerate(["t0", "t1", "t2", "t3"])}
                 for ts, ua in ((True, None), (False, False), (False, True)):
                     case = {"taxa": ["t2", "t0", "t3", "t1"], "seq_order": ["t0", "t1", "t2", "t3"], "seqs": seqs, "datatype": dtn,
@@ -731,6 +736,9 @@ def symbol_sweep_plan(rng):
          [sense[0], sense[17], sense[60], sense[17].lower(), "UUU", "ttu", "---", "???", "NNN", "A-G", "ACR", "acn", "Y??", "A?C"],
          [sense[3], sense[40]], {"genetic_code": 0}),
         ("general", {"kind": "GeneralJC69", "states": 4}, ["0", "1", "2", "x", "U", "K", "M", "?", "-", "Z"], ["0", "1"], {"general": gen}),
+        # a general alphabet whose genuine codes are characters that mean "missing" for nucleotides
+        ("general", {"kind": "GeneralJC69", "states": 3}, ["N", "n", "A", "?", "-", "X"], ["A", "N"],
+         {"general": {"codes": ["N", "n", "A"], "ambiguities": {}}}),
     ]
 
 
